@@ -80,17 +80,18 @@ pub fn block_length(a_large: u64, a_small: u64, nb_a_large: u64, l: u64, e: u64,
         }
 
         // Should never happen ?
-        return l - ((nb_a_large - 1) * large_block_size);
+        return l.saturating_sub((nb_a_large - 1) * large_block_size);
     }
 
-    let l = l - (nb_a_large * large_block_size);
+    let l = l.saturating_sub(nb_a_large * large_block_size);
     let sbn = sbn - nb_a_large;
     let small_size = (sbn + 1) * small_block_size;
     if small_size <= l {
         return small_block_size;
     }
 
-    l - (sbn * small_block_size)
+    // A source block number outside of the partition has a null size
+    l.saturating_sub(sbn * small_block_size)
 }
 
 #[cfg(test)]
